@@ -74,6 +74,17 @@ def main():
         if "count-lines" in opts:
             print("LINES %d" % counter[0])
         return
+    if mode == "save-wallet-followup":
+        # the process restarted after a crash: load whatever wallet.json holds, hand out a key with a SHORT annotation
+        # (so that the serialised wallet is shorter than a file a crashed save may have left behind) and save
+        quiet_import()
+        import skepticoin.wallet as wm
+        w = wm.Wallet.load(open("wallet.json"))
+        w.get_annotated_public_key("x")
+        with open("expected.json", "w") as f:
+            w.dump(f)
+        wm.save_wallet(w)
+        return
     if mode == "receive":
         quiet_import()
         import skepticoin.scripts.receive as rc
